@@ -675,3 +675,75 @@ func TestGovcReplay(t *testing.T) {
 		},
 	})
 }
+
+func init() {
+	harnesses = append(harnesses, &harness{
+		name: "http pool refused-request replay (idle connection, requests breaker tripped)",
+		match: func(o *Obligation) bool {
+			return o.Kind == "post" && strings.Contains(o.Func, "stream/http.(*connPool).NewStream")
+		},
+		run: func(eng *Engine, o *Obligation) *ReplayOutcome {
+			src := `package http
+
+import (
+	"context"
+	"fmt"
+	"testing"
+
+	metrics "github.com/rcrowley/go-metrics"
+	v2 "mosn.io/mosn/pkg/config/v2"
+	str "mosn.io/mosn/pkg/stream"
+	"mosn.io/mosn/pkg/types"
+	"mosn.io/mosn/pkg/upstream/cluster"
+	"mosn.io/pkg/variable"
+)
+
+type govcClient struct{ str.Client }
+
+func (govcClient) ConnID() uint64 { return 7 }
+
+type govcInfo struct {
+	types.ClusterInfo
+	rm    types.ResourceManager
+	stats *types.ClusterStats
+}
+
+func (i *govcInfo) ResourceManager() types.ResourceManager { return i.rm }
+func (i *govcInfo) Stats() *types.ClusterStats            { return i.stats }
+
+type govcHost struct {
+	types.Host
+	info  *govcInfo
+	stats *types.HostStats
+}
+
+func (h *govcHost) ClusterInfo() types.ClusterInfo { return h.info }
+func (h *govcHost) HostStats() *types.HostStats    { return h.stats }
+
+// The refuted postcondition says: NewStream hands out no sender, yet one more connection is leased than
+// before. Replay: one idle connection in the pool, the requests circuit breaker already at its limit.
+func TestGovcReplay(t *testing.T) {
+	rm := cluster.NewResourceManager(v2.CircuitBreakers{Thresholds: []v2.Thresholds{{MaxRequests: 1}}})
+	rm.Requests().Increase() // limit reached: the next request must be refused
+	info := &govcInfo{rm: rm, stats: &types.ClusterStats{UpstreamRequestPendingOverflow: metrics.NewCounter()}}
+	host := &govcHost{info: info, stats: &types.HostStats{UpstreamRequestPendingOverflow: metrics.NewCounter()}}
+	p := &connPool{}
+	p.host.Store(types.Host(host))
+	idle := &activeClient{pool: p, client: govcClient{}}
+	p.availableClients = []*activeClient{idle}
+	p.totalClientCount = 1
+	ctx := variable.NewVariableContext(context.Background())
+	_, sender, reason := p.NewStream(ctx, nil)
+	leased := int(p.totalClientCount) - len(p.availableClients)
+	if sender == nil && leased != 0 {
+		fmt.Printf("REPLAY-CONFIRMED request refused (%s) but %d connection(s) stay leased: total=%d idle=%d (the idle connection was taken and never returned)\n", reason, leased, p.totalClientCount, len(p.availableClients))
+	} else {
+		fmt.Println("REPLAY-NOT-REPRODUCED", sender == nil, leased)
+	}
+}
+`
+			out, _ := runOverlayTest("pkg/stream/http", src, "^TestGovcReplay$")
+			return outcomeFromOutput(src, out)
+		},
+	})
+}
